@@ -65,6 +65,9 @@ type amounts struct {
 	Mode string  `json:"mode"`
 	Ins  []int64 `json:"ins"`
 	Outs []int64 `json:"outs"`
+	// DupSeq, if set, makes every input reference the SAME outpoint (Ins are all equal)
+	// with these Sequence values: the exact input sum is that one output's value
+	DupSeq []uint32 `json:"dup_seq,omitempty"`
 }
 
 var inputEdges = []int64{0, 1, 99, 100, 101, ela, 10 * ela, 5000 * ela, 33000000 * ela}
@@ -129,7 +132,7 @@ var feeChoices = []int64{100, 100, 101, 10000, ela, 0, 1, 99, -1, -100}
 
 // drawAmounts draws inputs and outputs. kFixed > 0 forces the output count.
 func drawAmounts(t *rapid.T, kFixed, maxIn, maxOut int) amounts {
-	mode := rapid.SampledFrom([]string{"honest", "honest", "boundary", "wrap-out", "wrap-out", "wrap-out", "wrap-in", "over", "random", "neg-balanced"}).Draw(t, "mode")
+	mode := rapid.SampledFrom([]string{"honest", "honest", "boundary", "wrap-out", "wrap-out", "wrap-out", "wrap-in", "over", "random", "neg-balanced", "dup-outpoint", "dup-outpoint"}).Draw(t, "mode")
 	k := kFixed
 	if k == 0 {
 		k = rapid.IntRange(1, maxOut).Draw(t, "nout")
@@ -194,6 +197,24 @@ func drawAmounts(t *rapid.T, kFixed, maxIn, maxOut int) amounts {
 			S.Mod(S, new(big.Int).Mul(maxI64, big.NewInt(int64(k))))
 		}
 		a.Outs = splitExact(t, S, k)
+	case "dup-outpoint":
+		// one outpoint referenced k times with different Sequence values, outputs worth up to k coins
+		v := rapid.OneOf(rapid.Int64Range(100000, 1000*ela), rapid.SampledFrom([]int64{ela, 10 * ela, 5000 * ela})).Draw(t, "coin")
+		n := rapid.IntRange(2, 4).Draw(t, "copies")
+		a.DupSeq = drawSequences(t, n)
+		for i := 0; i < n; i++ {
+			a.Ins = append(a.Ins, v)
+		}
+		fee := rapid.SampledFrom([]int64{100, 10000, 0}).Draw(t, "fee") // 0: the only fee ActivateProducer admits
+		claimed := int64(n) * v
+		if rapid.IntRange(0, 3).Draw(t, "partial") == 0 {
+			claimed = rapid.Int64Range(v+fee+1, int64(n)*v).Draw(t, "claimed")
+		}
+		S := big.NewInt(claimed - fee)
+		if S.Sign() < 0 {
+			S.SetInt64(0)
+		}
+		a.Outs = splitExact(t, S, k)
 	case "neg-balanced":
 		// one negative output balanced by larger positive ones: the sum rule holds, the
 		// per-output rule must refuse it
@@ -228,8 +249,29 @@ func drawAmounts(t *rapid.T, kFixed, maxIn, maxOut int) amounts {
 	return a
 }
 
+// drawSequences: n Sequence values, mostly pairwise different.
+func drawSequences(t *rapid.T, n int) []uint32 {
+	seqs := make([]uint32, n)
+	for i := range seqs {
+		seqs[i] = rapid.OneOf(rapid.SampledFrom([]uint32{0, 1, math.MaxUint32, math.MaxUint32 - 1, math.MaxUint16}), rapid.Uint32()).Draw(t, "seq")
+	}
+	if rapid.IntRange(0, 7).Draw(t, "sameseq") != 0 {
+		for i := range seqs { // force them apart
+			for j := 0; j < i; j++ {
+				if seqs[i] == seqs[j] {
+					seqs[i] = seqs[j] + uint32(i) + 1
+				}
+			}
+		}
+	}
+	return seqs
+}
+
 func (a amounts) exact() (I, O *big.Int, anyNeg bool, inRange bool) {
 	I, O = bigSum(a.Ins), bigSum(a.Outs)
+	if len(a.DupSeq) > 0 {
+		I = big.NewInt(a.Ins[0]) // the one outpoint really spent
+	}
 	inRange = I.Cmp(maxI64) <= 0 && O.Cmp(maxI64) <= 0
 	for _, v := range a.Outs {
 		if v < 0 {
@@ -242,10 +284,16 @@ func (a amounts) exact() (I, O *big.Int, anyNeg bool, inRange bool) {
 			inRange = false
 		}
 	}
+	if len(a.DupSeq) > 0 {
+		inRange = false
+	}
 	return
 }
 
 func (a amounts) nontrivial() bool {
+	if len(a.DupSeq) > 0 {
+		return true
+	}
 	_, O, anyNeg, _ := a.exact()
 	if anyNeg {
 		return false
@@ -325,6 +373,10 @@ func buildTyped(n *node.Node, tt ctypes.TxType, version ctypes.TransactionVersio
 		var id common.Uint256
 		id[0], id[1], id[31] = byte(i+1), byte(tt), 0xc1
 		ins[i] = &ctypes.Input{Previous: ctypes.OutPoint{TxID: id, Index: uint16(i)}, Sequence: 0}
+		if len(a.DupSeq) > 0 {
+			ins[i].Previous = ins[0].Previous
+			ins[i].Sequence = a.DupSeq[i]
+		}
 		refs[ins[i]] = ctypes.Output{AssetID: core.ELAAssetID, Value: common.Fixed64(v), ProgramHash: n.Keys[i%len(n.Keys)].ProgramHash}
 	}
 	outs := make([]*ctypes.Output, len(a.Outs))
@@ -407,8 +459,9 @@ func checkCheckerCase(t vk.TB, n *node.Node, cc checkerCase) {
 	exactFee := new(big.Int).Sub(I, O)
 	minFee := big.NewInt(int64(n.Params.MinTransactionFee))
 
-	var outErr, feeErr error
+	var inErr, outErr, feeErr error
 	panicked, pv, frame := vk.Catch(func() {
+		inErr = tx.CheckTransactionInput()
 		outErr = tx.CheckTransactionOutput()
 		if outErr == nil {
 			feeErr = tx.CheckTransactionFee(refs)
@@ -418,6 +471,17 @@ func checkCheckerCase(t vk.TB, n *node.Node, cc checkerCase) {
 		t.Fatalf("harness: checker panicked for %s: %v at %s", cc.Type, pv, frame)
 	}
 	accepted := outErr == nil && feeErr == nil
+	if len(a.DupSeq) > 0 {
+		// the input check is what has to refuse a repeated outpoint
+		accepted = accepted && inErr == nil
+		if accepted && O.Cmp(I) > 0 {
+			vk.Report(t, fmt.Sprintf("C01:%s.CheckTransactionInput:repeated-outpoint-accepted", inputChecker(tt)),
+				fmt.Sprintf("%s at height %d: %d inputs on one outpoint worth %v (sequences %v) pass CheckTransactionInput/Output/Fee with outputs summing to %v",
+					cc.Type, cc.Height, len(a.Ins), I, a.DupSeq, O), cc)
+			return
+		}
+		vk.Class("dup-outpoint input-check " + map[bool]string{true: "passed", false: "refused"}[inErr == nil])
+	}
 	class := fmt.Sprintf("%s %s", cc.Type, map[bool]string{true: "out-ok", false: "out-rejected"}[outErr == nil])
 	if outErr == nil {
 		class += map[bool]string{true: " fee-ok", false: " fee-rejected"}[feeErr == nil]
@@ -464,7 +528,7 @@ func checkCheckerCase(t vk.TB, n *node.Node, cc checkerCase) {
 		}
 	}
 	// the helper itself (also used by CRCProposalWithdraw.SpecialContextCheck)
-	if !anyNeg {
+	if !anyNeg && len(a.DupSeq) == 0 {
 		fee, ferr := transaction.VerifGetTransactionFee(tx, refs)
 		if ferr == nil && big.NewInt(int64(fee)).Cmp(exactFee) != 0 {
 			if exactFee.Cmp(minFee) < 0 && big.NewInt(int64(fee)).Cmp(minFee) >= 0 {
@@ -504,6 +568,16 @@ var overridesOutputCheck = map[ctypes.TxType]bool{
 	ctypes.InactiveArbitrators: true, ctypes.RevertToDPOS: true,
 }
 
+func inputChecker(tt ctypes.TxType) string {
+	switch tt {
+	case ctypes.ActivateProducer:
+		return "ActivateProducerTransaction"
+	case ctypes.SideChainPow:
+		return "SideChainPOWTransaction"
+	}
+	return "DefaultChecker"
+}
+
 func typeStruct(tt ctypes.TxType) string {
 	if !overridesOutputCheck[tt] {
 		return "DefaultChecker"
@@ -532,6 +606,7 @@ func TestGetTxFee(t *testing.T) {
 	rapid.Check(t, func(rt *rapid.T) {
 		n := sharedNode(rt)
 		a := drawAmounts(rt, 0, 6, 8)
+		a.DupSeq = nil             // the fee helpers are only handed input lists that passed the input check
 		for i, v := range a.Outs { // callers only pass validated (non-negative) amounts
 			if v < 0 {
 				a.Outs[i] = 0
@@ -646,11 +721,32 @@ func checkFeeMapCase(t vk.TB, n *node.Node, fc feeMapCase) {
 // layer (iii): end to end on the mini-node
 
 type e2eTx struct {
-	Mode  string  `json:"mode"`
-	Coins int     `json:"coins"` // number of coins spent (1..2)
-	Pick  int     `json:"pick"`
-	Outs  []int64 `json:"outs"`
-	Fee   int64   `json:"claimed_fee"` // what the int64 arithmetic of the node yields
+	Mode   string   `json:"mode"`
+	Coins  int      `json:"coins"` // number of coins spent (1..2)
+	Pick   int      `json:"pick"`
+	Outs   []int64  `json:"outs"`
+	Fee    int64    `json:"claimed_fee"` // what the int64 arithmetic of the node yields
+	DupSeq []uint32 `json:"dup_seq,omitempty"`
+}
+
+// dupTransfer builds and signs a TransferAsset whose inputs all reference coin c,
+// with the given Sequence values.
+func dupTransfer(n *node.Node, c node.Coin, seqs []uint32, outs []node.Out, atHeight uint32) (interfaces.Transaction, error) {
+	var ins []*ctypes.Input
+	for _, s := range seqs {
+		ins = append(ins, &ctypes.Input{Previous: c.Op, Sequence: s})
+	}
+	var os []*ctypes.Output
+	for _, o := range outs {
+		os = append(os, &ctypes.Output{AssetID: core.ELAAssetID, Value: o.Value, ProgramHash: o.To,
+			Type: ctypes.OTNone, Payload: &outputpayload.DefaultOutput{}})
+	}
+	tx := functions.CreateTransaction(n.TxVersionAt(atHeight), ctypes.TransferAsset, 0, &payload.TransferAsset{},
+		[]*ctypes.Attribute{}, ins, os, 0, []*program.Program{})
+	if err := n.SignStandard(tx, []node.Coin{c}); err != nil {
+		return nil, err
+	}
+	return tx, nil
 }
 
 type e2eCase struct {
@@ -710,9 +806,17 @@ func TestEndToEnd(t *testing.T) {
 				ins[i] = int64(c.Value)
 			}
 			I := bigSum(ins)
-			mode := rapid.SampledFrom([]string{"honest", "boundary", "over", "wrap-out", "wrap-out"}).Draw(rt, "mode")
+			mode := rapid.SampledFrom([]string{"honest", "boundary", "over", "wrap-out", "wrap-out", "dup-outpoint", "dup-outpoint"}).Draw(rt, "mode")
 			if I.Cmp(maxI64) > 0 {
 				mode = "honest"
+			}
+			var dupSeq []uint32
+			if mode == "dup-outpoint" {
+				// the same coin referenced 2-4 times with different Sequence values
+				coins = coins[:1]
+				ins = ins[:1]
+				I = bigSum(ins)
+				dupSeq = drawSequences(rt, rapid.IntRange(2, 4).Draw(rt, "copies"))
 			}
 			nout := rapid.IntRange(1, 6).Draw(rt, "nout")
 			var fee int64
@@ -727,6 +831,13 @@ func TestEndToEnd(t *testing.T) {
 			case "over":
 				fee = -rapid.Int64Range(1, 10*ela).Draw(rt, "over")
 				S = new(big.Int).Sub(I, big.NewInt(fee))
+			case "dup-outpoint":
+				fee = rapid.SampledFrom([]int64{100, 10000}).Draw(rt, "fee")
+				claimed := new(big.Int).Mul(I, big.NewInt(int64(len(dupSeq))))
+				if rapid.IntRange(0, 3).Draw(rt, "partial") == 0 && ins[0] > 2 {
+					claimed = big.NewInt(rapid.Int64Range(ins[0]+fee+1, ins[0]+fee+1+ins[0]/2).Draw(rt, "claimed"))
+				}
+				S = new(big.Int).Sub(claimed, big.NewInt(fee))
 			case "wrap-out":
 				if nout < 3 {
 					nout = 3 + nout
@@ -743,22 +854,28 @@ func TestEndToEnd(t *testing.T) {
 				S.Mul(maxI64, big.NewInt(int64(nout)))
 			}
 			outsV := splitExact(rt, S, nout)
-			et := e2eTx{Mode: mode, Coins: len(coins), Pick: pick, Outs: outsV, Fee: fee}
+			et := e2eTx{Mode: mode, Coins: len(coins), Pick: pick, Outs: outsV, Fee: fee, DupSeq: dupSeq}
 			ec.Txs = append(ec.Txs, et)
 			O := bigSum(outsV)
 			createsValue := O.Cmp(I) > 0
 			exactFee := new(big.Int).Sub(I, O)
-			honest := exactFee.Cmp(big.NewInt(int64(n.Params.MinTransactionFee))) >= 0 && O.Cmp(maxI64) <= 0 && I.Cmp(maxI64) <= 0
+			honest := exactFee.Cmp(big.NewInt(int64(n.Params.MinTransactionFee))) >= 0 && O.Cmp(maxI64) <= 0 && I.Cmp(maxI64) <= 0 && dupSeq == nil
 
 			var outs []node.Out
 			for i, v := range outsV {
 				outs = append(outs, node.Out{To: n.Keys[(k+i)%len(n.Keys)].ProgramHash, Value: common.Fixed64(v)})
 			}
-			tx, err := n.Transfer(coins, outs, tip.Height+1)
+			build := func() (interfaces.Transaction, error) {
+				if dupSeq == nil {
+					return n.Transfer(coins, outs, tip.Height+1)
+				}
+				return dupTransfer(n, coins[0], dupSeq, outs, tip.Height+1)
+			}
+			tx, err := build()
 			if err != nil {
 				rt.Fatalf("harness: transfer: %v", err)
 			}
-			rend := func() any { return map[string]any{"case": ec, "inputs": ins, "step": k} }
+			rend := func() any { return map[string]any{"case": ec, "inputs": ins, "step": k, "dup_seq": dupSeq} }
 			am := amounts{Mode: mode, Ins: ins, Outs: outsV}
 			vk.Case("e2e mode="+mode, am.nontrivial(), am.key(fmt.Sprint("e2e", k)), rend)
 
@@ -773,6 +890,11 @@ func TestEndToEnd(t *testing.T) {
 				perr = e
 			}
 			vk.Class("e2e mempool " + map[bool]string{true: "accepted", false: "refused"}[perr == nil] + " mode=" + mode)
+			if perr == nil && createsValue && dupSeq != nil {
+				vk.Report(rt, "C01:TxPool.AppendToTxPool:repeated-outpoint-accepted",
+					fmt.Sprintf("mempool accepted a transfer referencing one coin of %v sela %d times (sequences %v) with outputs summing to %v", I, len(dupSeq), dupSeq, O), rend())
+				return
+			}
 			if perr == nil && createsValue {
 				vk.Report(rt, "C01:TxPool.AppendToTxPool:outputs-exceed-inputs",
 					fmt.Sprintf("mempool accepted a transfer spending %v sela with outputs %v (exact sum %v)", I, outsV, O), rend())
@@ -793,7 +915,16 @@ func TestEndToEnd(t *testing.T) {
 			if claimed < 0 {
 				claimed = 0
 			}
-			tx2, err := n.Transfer(coins, outs, tip.Height+1) // fresh object: no cached fee
+			if dupSeq != nil { // the node would count the coin once per input
+				claimed = common.Fixed64(ins[0]) * common.Fixed64(len(dupSeq))
+				for _, v := range outsV {
+					claimed -= common.Fixed64(v)
+				}
+				if claimed < 0 {
+					claimed = 0
+				}
+			}
+			tx2, err := build() // fresh object: no cached fee
 			if err != nil {
 				rt.Fatalf("harness: transfer: %v", err)
 			}
